@@ -11,15 +11,15 @@ import (
 )
 
 type Clause struct {
-	Kind  string // requires ensures invariant panics_unless assume lemma
-	Label string
-	Props []string
-	Text  string
-	E     *Expr
-	Loop  int
+	Kind    string // requires ensures invariant panics_unless assume lemma
+	Label   string
+	Props   []string
+	Text    string
+	E       *Expr
+	Loop    int
 	Derived bool // ensures only: proved once from the requires and the other (non-derived) ensures, not against the body
-	File  string
-	Line  int
+	File    string
+	Line    int
 }
 
 type LetDef struct {
@@ -87,9 +87,9 @@ type ContractSet struct {
 	Lemmas   []*Lemma
 	Preludes map[string][]string // pkg ("" = global) -> raw SMT chunks
 	Ghosts   map[string][]GhostDecl
-	KVStores map[string]KVDecl // package path -> store declaration
+	KVStores map[string]KVDecl       // package path -> store declaration
 	Globals  map[string][]GlobalFact // package path -> facts about package-level variables
-	Impls    map[string]string // interface type string -> concrete type string
+	Impls    map[string]string       // interface type string -> concrete type string
 	TypeTags []TypeTagDecl
 	Files    []string
 }
